@@ -72,9 +72,9 @@ REQUIRED_ACTIONS = ["Campaign", "Propose", "Heartbeat", "Crash.keep", "Restart",
                     # PreVote = TRUE behaviours: both phases, won and lost pre-votes, the stale-leader reply, a (pre-)vote
                     # response of the other phase reaching a candidate / pre-candidate (the per-state filter of stepCandidate)
                     "Deliver.PreVote", "Deliver.PreVoteResp", "Deliver.PreVoteResp.reject", "BecomePreCandidate", "PreVoteWon",
-                    "PreVoteLost", "Deliver.stale.App+HB.prevote", "Deliver.stale.PreVote", "Deliver.PreVoteResp.to-candidate"]
+                    "Deliver.stale.App+HB.prevote", "Deliver.stale.PreVote", "Deliver.PreVoteResp.to-candidate"]
 # reported, not required in every run (rare branches): Crash.lose, Deliver.VoteResp.reject, Deliver.AppResp.reject,
-# Deliver.VoteResp.to-precandidate
+# PreVoteLost (about 10 of 600 PreVote behaviours), Deliver.VoteResp.to-precandidate
 
 
 def action_histogram(behaviours):
